@@ -1,4 +1,4 @@
-(* C16 (a,b) driver: the extracted box-header model on `hdrparse <hex>` and `hdrmk <type-hex> <n>`. *)
+(* C16 driver (a,b and c): the extracted box-header model on `hdrparse <hex>` and `hdrmk <type-hex> <n>`. *)
 
 let int_of_cn n = BZ.to_int (z_of_cn n)
 let byte_of_int i = Model.n2b (cn_of_z (BZ.of_int i))
@@ -66,10 +66,45 @@ let hdrmk args =
      | _ -> "other")
   | _ -> "bad-args"
 
+(* C16 (c): `lazy <moov payload hex> <ops>`; ops = `-` or `i.k,i.k,...` (trak index, number of accessors of co_mut) *)
+let full_perr = function
+  | Model.InvalidInput -> "InvalidInput" | Model.TruncatedBox -> "TruncatedBox"
+  | Model.InvalidBoxLayout -> "InvalidBoxLayout" | Model.UnsupportedBoxLayout -> "UnsupportedBoxLayout"
+  | Model.MissingRequiredBox _ -> "MissingRequiredBox" | Model.UnsupportedBox _ -> "UnsupportedBox"
+  | Model.UnsupportedFormat _ -> "UnsupportedFormat"
+  | _ -> "Other"
+let res_err = function
+  | Model.EParse e -> "err parse " ^ full_perr e
+  | Model.EIo _ -> "err io"
+  | Model.Panic _ -> "panic"
+  | Model.OutOfFuel -> "model-out-of-fuel"
+  | Model.Ok _ -> "ok"
+let rec int_of_nat = function Model.O -> 0 | Model.S n -> 1 + int_of_nat n
+let parse_ops s =
+  if s = "-" then [] else
+  List.map (fun t -> match String.split_on_char '.' t with
+      | [i; k] -> (nat_of_int (int_of_string i), nat_of_int (int_of_string k))
+      | _ -> failwith "bad op") (String.split_on_char ',' s)
+let lazy_ args =
+  match args with
+  | [hx; ops] ->
+    let p = unhex hx in
+    (match Model.parse_moov p with
+     | Model.Ok kids ->
+       let (kids', fail) = Model.run_ops (parse_ops ops) Model.O kids in
+       let tail = Printf.sprintf "put=%s elen=%s" (let h = hex (Model.put_nodes kids') in if h = "" then "-" else h)
+                    (string_of_cn (Model.nodes_encoded_len kids')) in
+       (match fail with
+        | None -> "ok " ^ tail
+        | Some (step, e) -> Printf.sprintf "%s step=%d %s" (res_err e) (int_of_nat step) tail)
+     | e -> res_err e ^ " step=parse")
+  | _ -> "bad-args"
+
 let dispatch kind args =
   match kind with
   | "hdrparse" -> hdrparse args
   | "hdrmk" -> hdrmk args
+  | "lazy" -> lazy_ args
   | _ -> "unknown-kind " ^ kind
 
 let () = main_loop dispatch
